@@ -15,7 +15,7 @@ import ast
 from typing import Dict, List, Optional, Set, Tuple
 
 from ..algebra import C, P, Poly, padd, pmul, pshow
-from ..astutil import assigned_names, const_num, txt
+from ..astutil import parents, assigned_names, const_num, txt
 from ..model import GEOM7, AnalysisError, FunctionInfo, walk_local
 from ..types import S, show
 
@@ -45,6 +45,64 @@ class Gauge:
                 break
         return e
 
+    def g_local(self, e: ast.Name) -> Tuple[Optional[int], str]:
+        """a local with several definitions: the join over its definitions; the idiom
+              x = <odd expression>;  if <sign test on x's components>: x = -x
+        is a sign canonicalisation -- complete (EVEN) only if the test orients all three components"""
+        name = e.id
+        defs = self.asg.get(name, [])
+        if name in self.fi.params or not defs:
+            return (0, EVEN)
+        busy = getattr(self, "_busy", set())
+        if name in busy:
+            return (0, EVEN)  # neutral element while the definitions of `name` are being joined
+        self._busy = busy | {name}
+        try:
+            base, flips = [], []
+            extra = []
+            for d in defs:
+                if isinstance(d, ast.AugAssign) and isinstance(d.op, (ast.Add, ast.Sub)):
+                    extra.append(self.g(d.value))
+                    continue
+                if isinstance(d, (ast.For, ast.comprehension)):
+                    extra.append(self.g(d.iter))
+                    continue
+                if not (isinstance(d, ast.Assign) and len(d.targets) == 1 and isinstance(d.targets[0], ast.Name)):
+                    return (None, MIXED)
+                v = d.value
+                if isinstance(v, ast.UnaryOp) and isinstance(v.op, ast.USub) and isinstance(v.operand, ast.Name) and v.operand.id == name:
+                    flips.append(d)
+                else:
+                    base.append(d)
+            gs = [self.g(d.value) for d in base] + extra
+            if not gs:
+                return (None, MIXED)
+            deg = gs[0][0] if all(x[0] == gs[0][0] for x in gs) else None
+            par = gs[0][1] if all(x[1] == gs[0][1] for x in gs) else MIXED
+            if not flips or par == EVEN:
+                return (deg, par)
+            if par != ODD:
+                return (deg, MIXED)
+            # conditional negation of an odd quantity: which components does the guard orient?
+            par_map = parents(self.fi.node)
+            covered = set()
+            for d in flips:
+                p = par_map.get(id(d))
+                if not isinstance(p, ast.If) or not any(x is d for x in p.body):
+                    return (deg, MIXED)
+                for c in ast.walk(p.test):
+                    if isinstance(c, ast.Compare) and len(c.ops) == 1 and isinstance(c.ops[0], (ast.Lt, ast.LtE, ast.Gt, ast.GtE)):
+                        for side in (c.left, c.comparators[0]):
+                            if isinstance(side, ast.Subscript) and isinstance(side.value, ast.Name) and side.value.id == name \
+                                    and isinstance(side.slice, ast.Constant) and isinstance(side.slice.value, int):
+                                covered.add(side.slice.value)
+            if covered >= {0, 1, 2}:
+                return (deg, EVEN)
+            self.partial_canon = (name, sorted(covered))
+            return (deg, MIXED)
+        finally:
+            self._busy = busy
+
     def is_q(self, e) -> bool:
         if self.q_text is not None:
             return isinstance(e, ast.Attribute) and txt(e) == self.q_text
@@ -57,7 +115,7 @@ class Gauge:
         if self.is_q(e):
             return (self.qd, ODD)
         if isinstance(e, ast.Name):
-            return (0, EVEN)
+            return self.g_local(e)
         if isinstance(e, ast.Attribute):
             if isinstance(e.value, ast.Name) and e.value.id == self.sn:
                 return (0, EVEN)
@@ -66,6 +124,11 @@ class Gauge:
             return self.g(e.value)
         if isinstance(e, ast.UnaryOp):
             return self.g(e.operand)
+        if isinstance(e, (ast.GeneratorExp, ast.ListComp, ast.SetComp)):
+            return self.g(e.elt)
+        if isinstance(e, ast.IfExp):
+            a, b = self.g(e.body), self.g(e.orelse)
+            return (a[0] if a[0] == b[0] else None, a[1] if a[1] == b[1] else MIXED)
         if isinstance(e, ast.Tuple) or isinstance(e, ast.List):
             gs = [self.g(x) for x in e.elts]
             d = 0 if all(x[0] == 0 for x in gs) else None
@@ -105,6 +168,16 @@ class Gauge:
                 if fn.attr == "length" and not e.args:
                     d, p = self.g(fn.value)
                     return (d, EVEN)
+                # a method of self: its result is whatever its (single) return expression is
+                if isinstance(fn.value, ast.Name) and fn.value.id == self.sn and self.fi.cls is not None and self.q_text is None:
+                    callee = self.fi.cls.lookup(fn.attr)
+                    if callee is not None and getattr(self, "_depth", 0) < 4:
+                        rets = [r for r in walk_local(callee.node) if isinstance(r, ast.Return) and r.value is not None]
+                        if len(rets) == 1 and not e.args and callee.self_name is not None:
+                            sub = Gauge(callee, self.q, self.qd)
+                            sub._depth = getattr(self, "_depth", 0) + 1
+                            return sub.g(rets[0].value)
+                        return (None, MIXED)
                 # other methods: a function of receiver and arguments
                 gs = [self.g(fn.value)] + [self.g(a) for a in e.args]
                 if all(x == (0, EVEN) for x in gs):
@@ -472,6 +545,26 @@ def r86_r87(ctx, res):
                     okuse = True
                 if allow_norm and isinstance(p, ast.Attribute) and p.attr in ("normalized", "unit") and p.value is x:
                     okuse = True
+                # handed to a function of the module that uses its parameter only through invariant forms
+                if isinstance(p, ast.Call) and isinstance(p.func, ast.Name) and any(a is x for a in p.args):
+                    b = m.resolve(p.func.id)
+                    if b is not None and b.kind == "func" and b.target.cls is None:
+                        callee = b.target
+                        idx = [i for i, a in enumerate(p.args) if a is x][0]
+                        if idx < len(callee.params):
+                            pn = callee.params[idx]
+                            cpar = {}
+                            for y in ast.walk(callee.node):
+                                for ch in ast.iter_child_nodes(y):
+                                    cpar[id(ch)] = y
+                            uses = [y for y in walk_local(callee.node) if isinstance(y, ast.Name) and y.id == pn and isinstance(y.ctx, ast.Load)]
+                            def inv(y):
+                                q = cpar.get(id(y))
+                                if isinstance(q, ast.Attribute) and q.value is y and (q.attr == "parallel" or (allow_norm and q.attr in ("normalized", "unit"))):
+                                    return True
+                                return isinstance(q, ast.Call) and isinstance(q.func, ast.Attribute) and q.func.attr == "parallel" and y in q.args
+                            if uses and all(inv(y) for y in uses):
+                                okuse = True
                 if not okuse:
                     bad.append(x)
         ok = k > 0 and not bad
